@@ -2288,13 +2288,24 @@ async fn handle_packet(
         return;
     }
     // Liveness (`run_keepalive_tick`): only traffic that can come from the peer counts —
-    // authenticated requests, responses to our own transactions and media. A stray or
-    // unauthenticated STUN datagram must not keep or bring the transport back to Connected.
+    // authenticated requests, responses to our own transactions, and media / keepalive
+    // indications from the selected peer address. A stray or unauthenticated datagram must not
+    // keep or bring the transport back to Connected.
     let mark_received = |inner: &IceTransportInner| {
         inner.last_received_nanos.store(
             inner.created_at.elapsed().as_nanos() as u64,
             Ordering::Relaxed,
         )
+    };
+    // Traffic that is not part of a STUN transaction — media, and the Binding indications
+    // RFC 8445 §11 prescribes as keepalives — is unauthenticated at this layer: it counts only
+    // when it comes from the remote address of the selected pair.
+    let from_selected_peer = |inner: &IceTransportInner| {
+        inner
+            .selected_pair
+            .lock()
+            .as_ref()
+            .is_some_and(|pair| pair.remote.address == addr)
     };
     // An empty payload (zero-length TURN ChannelData / DATA attribute) carries
     // nothing to classify.
@@ -2361,6 +2372,9 @@ async fn handle_packet(
                         mark_received(&inner);
                         let _ = tx.send(msg);
                     }
+                } else if from_selected_peer(&inner) {
+                    // Binding indication (keepalive) from the peer
+                    mark_received(&inner);
                 }
             }
             Err(e) => {
@@ -2369,7 +2383,9 @@ async fn handle_packet(
         }
     } else {
         // DTLS or RTP
-        mark_received(&inner);
+        if from_selected_peer(&inner) {
+            mark_received(&inner);
+        }
         let receiver = inner.data_receiver.lock().clone();
         if let Some(rx) = receiver {
             rx.receive(Bytes::copy_from_slice(packet), addr, marshal_buf)
